@@ -2,6 +2,7 @@ import LapyVerif.Props.C13
 import LapyVerif.Bridge.Measures2
 import LapyVerif.Bridge.Measures
 import LapyVerif.Props.C13b
+import LapyVerif.Bridge.VertexMeasures
 /- axiom audit of C13 -/
 #print axioms LapyVerif.Props.C13.heron_eq_cross
 #print axioms LapyVerif.Props.C13.area_eq_sum
@@ -42,3 +43,10 @@ import LapyVerif.Props.C13b
 #print axioms LapyVerif.Bridge.gen_normalized_y
 #print axioms LapyVerif.Bridge.gen_normalized_z
 #print axioms LapyVerif.Bridge.meas_normalized
+#print axioms LapyVerif.Bridge.vm_vareas
+#print axioms LapyVerif.Bridge.vm_avg
+#print axioms LapyVerif.Bridge.acc0
+#print axioms LapyVerif.Bridge.acc3
+#print axioms LapyVerif.Bridge.vm_vnormal0
+#print axioms LapyVerif.Bridge.vm_vnormal3
+#print axioms LapyVerif.Bridge.vm_offset0
